@@ -80,3 +80,22 @@ def net_sites(ctx: Context, funcs: T.Iterable[FuncInfo]) -> list[T.Any]:
 
 def in_net_class(ctx: Context, f: FuncInfo) -> bool:
     return f.cls is not None and f.cls.qual in ctx.escape.net_classes
+
+
+def is_noise(st: ast.stmt) -> bool:
+    """Docstrings, `pass`, and pure logging calls: statements without effect on any property."""
+    if isinstance(st, ast.Pass):
+        return True
+    if isinstance(st, ast.Expr):
+        v = st.value
+        if isinstance(v, ast.Constant) and isinstance(v.value, str):
+            return True
+        if isinstance(v, ast.Call):
+            ch = chain(v.func)
+            if ch and ch[0] in ("logger", "logging", "log") and ch[-1] in ("debug", "info", "warning", "error", "exception", "critical", "log"):
+                return True
+    return False
+
+
+def effective_body(stmts: list[ast.stmt]) -> list[ast.stmt]:
+    return [s for s in stmts if not is_noise(s)]
